@@ -1020,12 +1020,11 @@ def _setitem(x, i, v):
     if not isinstance(x, SymTensor):
         raise S.Unsupported("in-place write of symbolic data into a pre-existing real tensor (module state)")
     items = i if isinstance(i, tuple) else (i,)
-    if len(items) == 1 and _is_bool_index(items[0]) and isinstance(items[0], SymTensor) and not items[0].is_concrete():
-        # masked assignment with a symbolic mask -> elementwise ITE (value must be scalar or broadcastable 0-d)
+    vr0, _ = pl(v)
+    if len(items) == 1 and _is_bool_index(items[0]) and isinstance(items[0], SymTensor) and not items[0].is_concrete() and vr0.ndim == 0:
+        # masked assignment of a scalar under a symbolic mask -> elementwise ITE
         m = items[0].re
         vr, vi = pl(v)
-        if vr.ndim != 0:
-            raise S.Unsupported("masked assignment of a tensor value under a symbolic mask")
         if m.shape != x.re.shape[: m.ndim]:
             raise S.Unsupported("mask shape")
         val = vr[()]
@@ -1041,6 +1040,14 @@ def _setitem(x, i, v):
                 ival = vi[()] if vi is not None else 0
                 x.im[pos] = S.ite(c, ival, x.im[pos])
         return None
+    # a symbolic mask with a tensor value: the mask is concretised (decision points, as for masked reads)
+    new_items = []
+    for j in items:
+        if _is_bool_index(j) and isinstance(j, SymTensor) and not j.is_concrete():
+            new_items.append(ew1(lambda q: bool(q) if isinstance(q, S.Sym) else q, j.re).astype(bool))
+        else:
+            new_items.append(j)
+    items = tuple(new_items)
     try:
         ni = _idx(items)
     except _SymIndex:
